@@ -125,7 +125,8 @@ type Sim struct {
 	Store *Store
 	Proc  *Process
 	Env   *Env
-	User  *User
+	User  *User // first user (single-rollout runs)
+	Users []*User
 
 	start    time.Time
 	mapper   meta.RESTMapper
@@ -165,13 +166,15 @@ func (s *Sim) After(d time.Duration, fn func()) {
 }
 
 func (s *Sim) firedEvents() string {
-	if s.User == nil {
+	if len(s.Users) == 0 {
 		return ""
 	}
 	set := map[string]bool{}
-	for _, e := range s.User.sc.Events {
-		if e.Done {
-			set[e.Kind] = true
+	for _, u := range s.Users {
+		for _, e := range u.sc.Events {
+			if e.Done {
+				set[e.Kind] = true
+			}
 		}
 	}
 	ks := make([]string, 0, len(set))
